@@ -141,6 +141,21 @@ def families(rng):
     yield ['undefined', 'pegtext_ref'], [('R0', ('seq', [N('PegText'), N('U')])), ('R1', ('cap', A))]
     yield ['pegtext_defined'], [('R0', ('seq', [('cap', A), N('PegText')])), ('PegText', B)]
     yield ['pegtext_defined', 'unreachable'], [('R0', ('cap', A)), ('PegText', B)]
+    # references to the undefined name PegText, without / with captures elsewhere (before, after, around)
+    yield ['undefined', 'pegtext_ref', 'undefined_in_unreachable'], [('R0', A), ('R1', N('PegText'))]
+    yield ['undefined', 'pegtext_ref'], [('R0', ('seq', [N('PegText'), N('PegText'), A]))]
+    yield ['undefined', 'pegtext_ref', 'pegtext_ref_capture'], [('R0', ('seq', [('cap', A), N('PegText')]))]
+    yield ['undefined', 'pegtext_ref', 'pegtext_ref_capture'], [('R0', ('seq', [N('PegText'), ('cap', A)]))]
+    yield ['undefined', 'pegtext_ref', 'pegtext_ref_capture'], [('R0', ('cap', N('PegText')))]
+    yield ['undefined', 'pegtext_ref', 'pegtext_ref_capture'], [('R0', ('seq', [('cap', A), N('R1')])), ('R1', N('PegText'))]
+    yield ['undefined', 'pegtext_ref', 'pegtext_ref_capture'], [('R0', ('seq', [N('R1'), ('cap', A)])), ('R1', N('PegText'))]
+    yield ['undefined', 'pegtext_ref', 'pegtext_ref_capture', 'undefined_in_unreachable'], [('R0', ('cap', A)), ('R1', N('PegText'))]
+    yield ['undefined', 'pegtext_ref', 'pegtext_ref_capture', 'unreachable'], [('R0', N('PegText')), ('R1', ('cap', A))]
+    yield ['undefined', 'pegtext_ref', 'pegtext_ref_capture', 'action'], [('R0', ('seq', [('cap', A), ('act',), N('PegText'), N('U')]))]
+    for op in UNARY:
+        yield ['undefined', 'pegtext_ref', 'under_' + op], [('R0', ('seq', [(op, N('PegText')), A]))]
+        yield ['undefined', 'pegtext_ref', 'pegtext_ref_capture', 'under_' + op], [('R0', ('seq', [('cap', B), (op, N('PegText')), A]))]
+    yield ['pegtext_defined', 'direct'], [('R0', N('PegText'))] + [('PegText', ('seq', [N('PegText'), ('cap', A)]))]
     # duplicates
     yield ['dup'], [('R0', A), ('R1', B), ('R1', A)]
     yield ['dup', 'dup_first'], [('R0', A), ('R0', B)]
@@ -241,6 +256,42 @@ def exprs_ops(k):
     return out
 
 
+def exprs_ops_over(leaves, k):
+    """like exprs_ops, over the given leaves"""
+    if k == 0:
+        return list(leaves)
+    out = []
+    for op in UNARY:
+        for e in exprs_ops_over(leaves, k - 1):
+            out.append((op, e))
+    for i in range(k):
+        for l in exprs_ops_over(leaves, i):
+            for r in exprs_ops_over(leaves, k - 1 - i):
+                out.append(('seq', [l, r]))
+                out.append(('alt', [l, r]))
+    return out
+
+
+PT_LEAVES = [A, N('R0'), N('PegText')]
+
+
+def exhaustive_pegtext():
+    """the name PegText as a leaf (UNARY has the capture <>): all 1-rule grammars with ≤ 2 operators,
+    all 2-rule grammars with ≤ 1 operator per rule, and the same 2-rule grammars followed by a
+    definition of PegText"""
+    e2 = [e for j in range(3) for e in exprs_ops_over(PT_LEAVES, j)]
+    for b in e2:
+        yield ['exh_pegtext1'], [('R0', b)]
+    e1 = [e for j in range(2) for e in exprs_ops_over(PT_LEAVES + [N('R1')], j)]
+    for a in e1:
+        for b in e1:
+            yield ['exh_pegtext2'], [('R0', a), ('R1', b)]
+    e0 = [e for j in range(2) for e in exprs_ops_over(PT_LEAVES, j)]
+    for a in e0:
+        for b in e0:
+            yield ['exh_pegtext_defined'], [('R0', a), ('PegText', b)]
+
+
 _CACHE = {}
 
 
@@ -300,6 +351,7 @@ def cases(tier, seed):
         gens = [exhaustive(2, 1), exhaustive(2, 2, sample=600000, rng=rng)]
     else:
         gens = [exhaustive(2, 2)]
+    gens.append(exhaustive_pegtext())      # last: the ids and the random stream of the cases before stay as they were
     for g in gens:
         for feats, rules in g:
             c = mk(feats, rules)
